@@ -38,6 +38,10 @@ pub uninterp spec fn caps_view(c: &Caps) -> Map<Seq<char>, Handle>;
 pub fn caps_get(c: &Caps, name: &VString) -> (r: Option<Handle>)
     ensures r is Some <==> caps_view(c).contains_key(text_of(name)),
             r is Some ==> cell_id(&r->Some_0) == cell_id(&caps_view(c)[text_of(name)]) { unimplemented!() }
+#[verifier::external_body] pub struct BuiltinV { x: usize }      // NonSweepingBuiltInFunction
+#[verifier::external_body] pub struct BridgeV { x: usize }       // Box<dyn RuntimeExecutionBridgeNotifier>
+#[verifier::external_body]
+pub fn clone_caps_opt(c: &Option<Caps>) -> (r: Option<Caps>) ensures r is Some <==> c is Some, r is Some ==> caps_view(&r->Some_0) == caps_view(&c->Some_0) { unimplemented!() }
 pub struct PrimitiveFunction { pub location: VString, pub callback_state: Option<Caps> }
 
 pub enum Primitive {
@@ -45,7 +49,8 @@ pub enum Primitive {
     Optional(Option<Box<Primitive>>),
     HeapPrimitive(HeapV),            // pointer into a list / map / object slot
     Function(PrimitiveFunction),
-    Other(OtherV),                   // BuiltInFunction, Vector, Object, Module, Map
+    BuiltInFunction(BuiltinV),
+    Other(OtherV),                   // Vector, Object, Module, Map
 }
 #[verifier::external_body]
 pub fn clone_prim(p: &Primitive) -> (r: Primitive) ensures r == *p { unimplemented!() }
@@ -65,7 +70,7 @@ pub fn move_out(p: Primitive) -> (r: Result<Primitive, VErr>)
     ensures moved_out(p) is Some ==> r is Ok && r->Ok_0 == moved_out(p)->Some_0, moved_out(p) is None ==> r is Err
 { unimplemented!() }
 
-pub enum Exit { NoExit, Goto(isize), PushScope(SpecialScope), PopScope, GotoPopScope(isize, usize), ReturnValue(Box<Primitive>), JumpRequest(JumpRequest) }
+pub enum Exit { NoExit, Goto(isize), PushScope(SpecialScope), PopScope, GotoPopScope(isize, usize), ReturnValue(Box<Primitive>), JumpRequest(JumpRequest), BeginNotificationBridge(BridgeV) }
 pub enum SpecialScope { If, Else, WhileLoop }
 #[verifier::external_body] pub struct StackRef { x: usize }          // Rc<RefCell<Stack>>
 pub enum JumpRequestDestination { Standard(VString), Module(VString), Library { lib_name: VString, func_name: VString } }
